@@ -90,12 +90,10 @@ fn add_types_prefix(ts_type: &str) -> String {
         return ts_type.to_string();
     }
 
-    // Handle arrays: CustomType[] -> types.CustomType[]
+    // Handle arrays: qualify the element type, whatever it is
+    // (User[] -> types.User[], User[][] -> types.User[][], string[][] and Record<..>[] unchanged)
     if let Some(base_type) = ts_type.strip_suffix("[]") {
-        if matches!(base_type, "string" | "number" | "boolean" | "void") {
-            return ts_type.to_string();
-        }
-        return format!("types.{}[]", base_type);
+        return format!("{}[]", add_types_prefix(base_type));
     }
 
     // Handle Record/Map - they contain types but the structure itself doesn't need prefix
